@@ -92,6 +92,11 @@ func genC11(r *Rand, tier, profile string) *Case {
 		node := r.Intn(nodes)
 		t := int64(r.Range(30, 400))
 		st := Step{K: "connect", C: i, N: node, S: fmt.Sprintf("life%d", i), U: "u", T: "p", I: k}
+		if r.Bool(0.06) {
+			st.J = 1 // never gets its CONNACK: the link dies under that write
+			ts = append(ts, tstep{t, st})
+			continue
+		}
 		if r.Bool(0.3) {
 			st.L = []string{"w/will", fmt.Sprintf("will%d", i)}
 		}
@@ -524,6 +529,22 @@ func judgeLifecycleOpts(prop string, withDisplaced bool) func(w *world) {
 		}
 		judged := 0
 		for _, cl := range all {
+			if cl.connack == nil && cl.conn != nil && cl.conn.writeFailedAt() >= 0 && cl.conn.writeFailedAt()+5000 <= final.AtMs-settleDur {
+				// the link died under the CONNACK: whatever the broker had set up for this connection
+				// has to be gone again
+				w.o.probe("connections_lost_under_connack")
+				for ni, l := range final.Listings {
+					if lines := sessionLines(l, cl.opts.ClientID); len(lines) > 0 {
+						w.o.violate(prop, "failed-connect-leaves-session", len(w.c.Steps), endMs, map[string]string{"where": "listing"},
+							"client %d's link died while the broker was writing its CONNACK (at %dms); after the final settle node %d still lists %v", cl.idx, cl.conn.writeFailedAt(), ni, lines)
+						break
+					}
+				}
+				if n := w.nodes[cl.node]; n.alive && len(w.sessionsOfClient(n, cl.opts.ClientID)) > 0 {
+					w.o.violate(prop, "failed-connect-leaves-session", len(w.c.Steps), endMs, map[string]string{"where": "registry"},
+						"client %d's link died while the broker was writing its CONNACK; node %d still has a session for client id %s in its registry", cl.idx, cl.node, cl.opts.ClientID)
+				}
+			}
 			if cl.connack == nil || cl.connack.RC != 0 {
 				continue
 			}
